@@ -53,6 +53,10 @@ void verif_watchdog_install(void (*on_timeout)(void));
 static inline void watchdog_arm(unsigned seconds)   { verif_in_call = 1; alarm(seconds); }
 static inline void watchdog_disarm(void)            { alarm(0); verif_in_call = 0; }
 
+/* recorders: a call that does not return within the limit ends the run with exit 44 (C16) */
+static inline void rec_alarm_handler(int sig) { (void) sig; static const char m[] = "WATCHDOG: a library call did not return\n"; ssize_t w = write(2, m, sizeof m - 1); (void) w; _exit(44); }
+static inline void rec_watchdog(unsigned seconds) { signal(SIGALRM, rec_alarm_handler); alarm(seconds); }
+
 /* ---- tiny PRNG (splitmix64), seeded from VERIF_SEED ----------------------- */
 typedef struct { uint64_t s; } rng_t;
 static inline uint64_t rng_next(rng_t *r)
